@@ -16,32 +16,963 @@ def AltOps : List Op → Prop
   | [x] => ¬ x.isEmpty = true
   | x :: y :: cs => ¬ x.isEmpty = true ∧ ¬ (x.tag = .equal ∧ y.tag = .equal) ∧ AltOps (y :: cs)
 
+/-- `y` is the op `x`, or `x` is an Equal op and `y` a sub-range of it -/
+def Piece (x y : Op) : Prop :=
+  y = x ∨ ∃ o m len d k, x = .equal o m len ∧ y = .equal (o + d) (m + d) k ∧ d + k ≤ len
+
+/-- `g` is the run `mid` with its first and its last op possibly trimmed (when they are Equal ops);
+all interior ops are unchanged -/
+def Trimmed (mid g : List Op) : Prop :=
+  (∃ x y, mid = [x] ∧ g = [y] ∧ Piece x y) ∨
+  (∃ x y inner x' y', mid = x :: (inner ++ [x']) ∧ g = y :: (inner ++ [y']) ∧ Piece x y ∧ Piece x' y')
+
+namespace Group
+
+theorem getLast?_append_cons {α} (l : List α) (y : α) (r : List α) :
+    (l ++ y :: r).getLast? = (y :: r).getLast? := by
+  induction l with
+  | nil => rfl
+  | cons a l ih => rw [List.cons_append, List.getLast?_cons_of_ne_nil (by simp), ih]
+
+theorem eq_nil_or_snoc {α} (l : List α) : l = [] ∨ ∃ t a, l = t ++ [a] := by
+  rcases List.eq_nil_or_concat l with h | ⟨t, a, h⟩
+  · exact Or.inl h
+  · exact Or.inr ⟨t, a, by simpa using h⟩
+
+/-! ### `changesOf` -/
+
+theorem changesOf_eq_filter (l : List Op) : changesOf l = l.filter (fun x => !(x.tag == .equal)) := by
+  induction l with
+  | nil => rfl
+  | cons x l ih => cases x <;> simp [changesOf, ih, Op.tag]
+
+theorem changesOf_append (a b : List Op) : changesOf (a ++ b) = changesOf a ++ changesOf b := by
+  simp [changesOf_eq_filter]
+
+theorem changesOf_cons (x : Op) (l : List Op) : changesOf (x :: l) = changesOf [x] ++ changesOf l :=
+  changesOf_append [x] l
+
+theorem changesOf_flatten (L : List (List Op)) : changesOf L.flatten = (L.map changesOf).flatten := by
+  induction L with
+  | nil => rfl
+  | cons g L ih => simp [changesOf_append, ih]
+
+theorem changesOf_ne_nil {l : List Op} : changesOf l ≠ [] ↔ ∃ x ∈ l, x.tag ≠ .equal := by
+  simp [changesOf_eq_filter, List.filter_eq_nil_iff]
+
+theorem changesOf_single_ne {x : Op} (h : x.tag ≠ .equal) : changesOf [x] = [x] := by
+  cases x <;> simp_all [changesOf, Op.tag]
+
+theorem changesOf_single_eq (o m l : Nat) : changesOf [.equal o m l] = [] := rfl
+
+/-! ### the loop without its accumulator -/
+
+/-- an Equal op longer than `2n`, at which the loop closes a group -/
+def isBig (n : Nat) : Op → Bool
+  | .equal _ _ len => decide (n * 2 < len)
+  | _ => false
+
+theorem groupLoop_acc (n : Nat) (ops p : List Op) (rv : List (List Op)) :
+    groupLoop n ops p rv = rv ++ groupLoop n ops p [] := by
+  induction ops generalizing p rv with
+  | nil => simp only [groupLoop]; split <;> simp
+  | cons x rest ih =>
+    cases x with
+    | equal o m len =>
+      simp only [groupLoop]
+      split
+      · rw [ih, ih _ ([] ++ _)]; simp
+      · exact ih _ _
+    | delete o l m => simp only [groupLoop]; exact ih _ _
+    | insert o m l => simp only [groupLoop]; exact ih _ _
+    | replace o ol m nl => simp only [groupLoop]; exact ih _ _
+
+/-- `groupLoop` with empty accumulator -/
+def G (n : Nat) (ops p : List Op) : List (List Op) := groupLoop n ops p []
+
+theorem G_nil (n : Nat) (p : List Op) :
+    G n [] p = (match p with | [] => [] | [.equal ..] => [] | _ => [p]) := by
+  simp only [G, groupLoop]; split <;> simp
+
+theorem G_big (n o m len : Nat) (rest p : List Op) (h : n * 2 < len) :
+    G n (.equal o m len :: rest) p =
+      (p ++ [.equal o m n]) :: G n rest [.equal (o + (len - n)) (m + (len - n)) (len - (len - n))] := by
+  simp only [G, groupLoop, if_pos h]; rw [groupLoop_acc]; simp
+
+theorem G_small (n : Nat) (x : Op) (rest p : List Op) (h : isBig n x = false) :
+    G n (x :: rest) p = G n rest (p ++ [x]) := by
+  cases x with
+  | equal o m len =>
+    have : ¬ n * 2 < len := by simpa [isBig] using h
+    simp only [G, groupLoop, if_neg this]
+  | _ => simp only [G, groupLoop]
+
+theorem groupDiffOps_eq (ops : List Op) (n : Nat) :
+    groupDiffOps ops n = G n (trimLast n (trimFirst n ops)) [] := by
+  cases ops with
+  | nil => simp [groupDiffOps, trimFirst, trimLast, G, groupLoop]
+  | cons x l => simp [groupDiffOps, G]
+
+theorem isBig_true {n : Nat} {x : Op} (h : isBig n x = true) :
+    ∃ o m len, x = .equal o m len ∧ n * 2 < len := by
+  cases x with
+  | equal o m len => exact ⟨o, m, len, rfl, by simpa [isBig] using h⟩
+  | _ => simp [isBig] at h
+
+theorem isBig_false_of_ne {n : Nat} {x : Op} (h : x.tag ≠ .equal) : isBig n x = false := by
+  cases x <;> simp_all [isBig, Op.tag]
+
+/-! ### trimming -/
+
+theorem changesOf_trimFirst (n : Nat) (l : List Op) : changesOf (trimFirst n l) = changesOf l := by
+  unfold trimFirst; split <;> simp [changesOf]
+
+theorem changesOf_trimLast (n : Nat) (l : List Op) : changesOf (trimLast n l) = changesOf l := by
+  fun_induction trimLast n l with
+  | case1 => rfl
+  | case2 => rfl
+  | case3 => rfl
+  | case4 x y rest ih =>
+    rw [changesOf_cons x (trimLast n (y :: rest)), ih, ← changesOf_cons]
+
+/-! ### C12, clause "every change exactly once, unchanged, in order" -/
+
+theorem G_changes (n : Nat) (ops p : List Op) :
+    changesOf (G n ops p).flatten = changesOf p ++ changesOf ops := by
+  induction ops generalizing p with
+  | nil =>
+    rw [G_nil]; split <;> simp [changesOf]
+  | cons x rest ih =>
+    by_cases hb : isBig n x = true
+    · obtain ⟨o, m, len, rfl, hlen⟩ := isBig_true hb
+      rw [G_big _ _ _ _ _ _ hlen]
+      simp [changesOf_append, ih, changesOf]
+    · rw [G_small _ _ _ _ (by simpa using hb), ih]
+      rw [changesOf_append, changesOf_cons x rest, List.append_assoc]
+
+/-! ### heads and lasts of the trimmed list -/
+
+theorem isBig_false_of_small {n : Nat} {x : Op} (h : x.tag = .equal → x.oLen ≤ n) : isBig n x = false := by
+  cases x with
+  | equal o m len => simp [Op.tag, Op.oLen] at h; simp [isBig]; omega
+  | _ => rfl
+
+theorem trimFirst_head_small (n : Nat) (l : List Op) (x : Op) (hx : (trimFirst n l).head? = some x)
+    (he : x.tag = .equal) : x.oLen ≤ n := by
+  unfold trimFirst at hx
+  split at hx
+  · simp at hx; subst hx; simp [Op.oLen]; omega
+  · rename_i hne
+    cases l with
+    | nil => simp at hx
+    | cons y l =>
+      simp at hx; subst hx
+      cases y with
+      | equal o m len => exact absurd rfl (hne o m len l)
+      | _ => simp [Op.tag] at he
+
+theorem trimLast_head (n : Nat) (l : List Op) (x : Op) (hx : (trimLast n l).head? = some x) :
+    l.head? = some x ∨ (x.tag = .equal ∧ x.oLen ≤ n) := by
+  match l with
+  | [] => simp [trimLast] at hx
+  | [y] =>
+    cases y with
+    | equal o m len =>
+      simp [trimLast] at hx; subst hx; right; simp [Op.tag, Op.oLen]; omega
+    | _ => left; simpa [trimLast] using hx
+  | y :: z :: rest => left; simpa [trimLast] using hx
+
+theorem trim_head_small (n : Nat) (l : List Op) (x : Op)
+    (hx : (trimLast n (trimFirst n l)).head? = some x) (he : x.tag = .equal) : x.oLen ≤ n := by
+  rcases trimLast_head n _ x hx with h | h
+  · exact trimFirst_head_small n l x h he
+  · exact h.2
+
+theorem trimLast_last_small (n : Nat) (l : List Op) (x : Op) (hx : (trimLast n l).getLast? = some x)
+    (he : x.tag = .equal) : x.oLen ≤ n := by
+  fun_induction trimLast n l with
+  | case1 => simp at hx
+  | case2 o m len => simp at hx; subst hx; simp [Op.oLen]; omega
+  | case3 y hne =>
+    simp at hx; subst hx
+    cases y with
+    | equal o m len => exact absurd rfl (hne o m len)
+    | _ => simp [Op.tag] at he
+  | case4 y z rest ih =>
+    apply ih
+    have : trimLast n (z :: rest) ≠ [] := by
+      cases rest with
+      | nil => cases z <;> simp [trimLast]
+      | cons w r => simp [trimLast]
+    rwa [List.getLast?_cons_of_ne_nil this] at hx
+
+/-! ### no two adjacent Equal ops -/
+
+def NAEt : List Tag → Prop
+  | [] => True
+  | [_] => True
+  | a :: b :: cs => ¬ (a = .equal ∧ b = .equal) ∧ NAEt (b :: cs)
+
+/-- no two adjacent Equal ops (the part of `AltOps` grouping depends on) -/
+def NAE (l : List Op) : Prop := NAEt (l.map Op.tag)
+
+theorem NAE_of_AltOps {l : List Op} (h : AltOps l) : NAE l := by
+  induction l with
+  | nil => trivial
+  | cons x l ih =>
+    cases l with
+    | nil => trivial
+    | cons y cs =>
+      simp only [AltOps] at h
+      exact ⟨h.2.1, ih h.2.2⟩
+
+theorem NAE_tail {x : Op} {l : List Op} (h : NAE (x :: l)) : NAE l := by
+  cases l with
+  | nil => trivial
+  | cons y cs => exact h.2
+
+theorem NAE_head {x : Op} {l : List Op} (h : NAE (x :: l)) (hx : x.tag = .equal) :
+    ∀ y, l.head? = some y → y.tag ≠ .equal := by
+  intro y hy
+  cases l with
+  | nil => simp at hy
+  | cons z cs => simp at hy; subst hy; intro hz; exact h.1 ⟨hx, hz⟩
+
+theorem trimFirst_tags (n : Nat) (l : List Op) : (trimFirst n l).map Op.tag = l.map Op.tag := by
+  unfold trimFirst; split <;> simp [Op.tag]
+
+theorem trimLast_tags (n : Nat) (l : List Op) : (trimLast n l).map Op.tag = l.map Op.tag := by
+  fun_induction trimLast n l <;> simp_all [Op.tag]
+
+theorem NAE_trim {n : Nat} {l : List Op} (h : NAE l) : NAE (trimLast n (trimFirst n l)) := by
+  unfold NAE at *; rwa [trimLast_tags, trimFirst_tags]
+
+theorem NAE_no_changes {l : List Op} (h : NAE l) (hc : changesOf l = []) :
+    l = [] ∨ ∃ o m len, l = [.equal o m len] := by
+  match l with
+  | [] => left; rfl
+  | [x] =>
+    cases x with
+    | equal o m len => right; exact ⟨o, m, len, rfl⟩
+    | _ => simp [changesOf] at hc
+  | x :: y :: cs =>
+    exfalso
+    cases x with
+    | equal o m len =>
+      cases y with
+      | equal o' m' len' => exact h.1 ⟨rfl, rfl⟩
+      | _ => simp [changesOf] at hc
+    | _ => simp [changesOf] at hc
+
+/-! ### C12, clause "no group of Equal ops only" -/
+
+theorem G_has_change (n : Nat) (ops p : List Op) (h1 : NAE ops)
+    (h2 : changesOf p ≠ [] ∨ (p = [] ∧ ∀ x, ops.head? = some x → isBig n x = false) ∨
+      (∃ o m l, p = [.equal o m l] ∧ ∀ x, ops.head? = some x → x.tag ≠ .equal)) :
+    ∀ g ∈ G n ops p, changesOf g ≠ [] := by
+  induction ops generalizing p with
+  | nil =>
+    intro g hg
+    rw [G_nil] at hg
+    split at hg
+    · simp at hg
+    · simp at hg
+    · rename_i hp1 hp2
+      simp at hg; subst hg
+      rcases h2 with h | ⟨h, _⟩ | ⟨o, m, l, h, _⟩
+      · exact h
+      · exact absurd h hp1
+      · exact absurd h (hp2 o m l)
+  | cons x rest ih =>
+    by_cases hb : isBig n x = true
+    · obtain ⟨o, m, len, rfl, hlen⟩ := isBig_true hb
+      rw [G_big _ _ _ _ _ _ hlen]
+      intro g hg
+      rcases List.mem_cons.1 hg with rfl | hg
+      · rcases h2 with h | ⟨_, h⟩ | ⟨_, _, _, _, h⟩
+        · rw [changesOf_append]; simp [h]
+        · have := h _ rfl; simp [hb] at this
+        · exact absurd rfl (h _ rfl)
+      · exact ih _ (NAE_tail h1) (Or.inr (Or.inr ⟨_, _, _, rfl, NAE_head h1 rfl⟩)) g hg
+    · have hb : isBig n x = false := by simpa using hb
+      rw [G_small _ _ _ _ hb]
+      apply ih _ (NAE_tail h1)
+      by_cases hx : x.tag = .equal
+      · rcases h2 with h | ⟨rfl, _⟩ | ⟨_, _, _, _, h⟩
+        · left; rw [changesOf_append]; simp [h]
+        · right; right
+          cases x with
+          | equal o m len => exact ⟨o, m, len, rfl, NAE_head h1 rfl⟩
+          | _ => simp [Op.tag] at hx
+        · exact absurd hx (h _ rfl)
+      · left; rw [changesOf_append, changesOf_single_ne hx]; simp
+
+/-! ### C12, clause "interior Equal runs are at most `2n` long, border ones at most `n`" -/
+
+/-- an Equal op has at most `k` items -/
+def Small (k : Nat) (x : Op) : Prop := x.tag = .equal → x.oLen ≤ k
+
+theorem small_of_not_big {n : Nat} {x : Op} (h : isBig n x = false) : Small (2 * n) x := by
+  cases x with
+  | equal o m len => intro _; simp [isBig] at h; simp [Op.oLen]; omega
+  | _ => intro h; simp [Op.tag] at h
+
+theorem G_bounds (n : Nat) (ops p : List Op)
+    (I1 : ∀ x ∈ p, Small (2 * n) x)
+    (I2 : ∀ x, (p ++ ops).head? = some x → Small n x)
+    (I3 : ∀ x, (p ++ ops).getLast? = some x → Small n x) :
+    ∀ g ∈ G n ops p, (∀ x ∈ g, Small (2 * n) x) ∧ (∀ x, g.head? = some x → Small n x) ∧
+      (∀ x, g.getLast? = some x → Small n x) := by
+  induction ops generalizing p with
+  | nil =>
+    intro g hg
+    rw [G_nil] at hg
+    split at hg
+    · simp at hg
+    · simp at hg
+    · simp at hg; subst hg
+      simp only [List.append_nil] at I2 I3
+      exact ⟨I1, I2, I3⟩
+  | cons x rest ih =>
+    by_cases hb : isBig n x = true
+    · obtain ⟨o, m, len, rfl, hlen⟩ := isBig_true hb
+      rw [G_big _ _ _ _ _ _ hlen]
+      have hs : Small n (.equal o m n) := fun _ => Nat.le_refl _
+      have hs' : Small n (.equal (o + (len - n)) (m + (len - n)) (len - (len - n))) := by
+        intro _; simp [Op.oLen]; omega
+      intro g hg
+      rcases List.mem_cons.1 hg with rfl | hg
+      · refine ⟨?_, ?_, ?_⟩
+        · intro x hx
+          rcases List.mem_append.1 hx with hx | hx
+          · exact I1 x hx
+          · simp at hx; subst hx; intro _; simp [Op.oLen]; omega
+        · intro x hx
+          cases p with
+          | nil => simp at hx; subst hx; exact hs
+          | cons y p => exact I2 x (by simpa using hx)
+        · intro x hx
+          simp at hx; subst hx; exact hs
+      · refine ih _ ?_ ?_ ?_ g hg
+        · intro x hx; simp at hx; subst hx; intro _; simp [Op.oLen]; omega
+        · intro x hx; simp at hx; subst hx; exact hs'
+        · intro x hx
+          cases rest with
+          | nil => simp at hx; subst hx; exact hs'
+          | cons y r =>
+            apply I3 x
+            rw [show Op.equal o m len :: y :: r = [Op.equal o m len] ++ y :: r from rfl,
+              ← List.append_assoc, getLast?_append_cons]
+            rwa [getLast?_append_cons] at hx
+    · have hb : isBig n x = false := by simpa using hb
+      rw [G_small _ _ _ _ hb]
+      refine ih _ ?_ ?_ ?_
+      · intro y hy
+        rcases List.mem_append.1 hy with hy | hy
+        · exact I1 y hy
+        · simp at hy; subst hy; exact small_of_not_big hb
+      · intro y hy; exact I2 y (by simpa using hy)
+      · intro y hy; exact I3 y (by simpa using hy)
+
+/-! ### walks -/
+
+theorem walk_append (e : Nat → Nat → Bool) (l1 l2 : List Op) (a b c d : Nat) :
+    Walk e a b (l1 ++ l2) c d ↔ ∃ m1 m2, Walk e a b l1 m1 m2 ∧ Walk e m1 m2 l2 c d := by
+  induction l1 generalizing a b with
+  | nil =>
+    constructor
+    · intro h; exact ⟨a, b, ⟨rfl, rfl⟩, h⟩
+    · rintro ⟨m1, m2, ⟨rfl, rfl⟩, h⟩; exact h
+  | cons x l ih =>
+    cases x with
+    | equal o m len =>
+      simp only [List.cons_append, Walk, ih]
+      constructor
+      · rintro ⟨h1, h2, h3, h4, m1, m2, h5, h6⟩; exact ⟨m1, m2, ⟨h1, h2, h3, h4, h5⟩, h6⟩
+      · rintro ⟨m1, m2, ⟨h1, h2, h3, h4, h5⟩, h6⟩; exact ⟨h1, h2, h3, h4, m1, m2, h5, h6⟩
+    | delete o len m =>
+      simp only [List.cons_append, Walk, ih]
+      constructor
+      · rintro ⟨h1, h2, m1, m2, h5, h6⟩; exact ⟨m1, m2, ⟨h1, h2, h5⟩, h6⟩
+      · rintro ⟨m1, m2, ⟨h1, h2, h5⟩, h6⟩; exact ⟨h1, h2, m1, m2, h5, h6⟩
+    | insert o m len =>
+      simp only [List.cons_append, Walk, ih]
+      constructor
+      · rintro ⟨h1, h2, m1, m2, h5, h6⟩; exact ⟨m1, m2, ⟨h1, h2, h5⟩, h6⟩
+      · rintro ⟨m1, m2, ⟨h1, h2, h5⟩, h6⟩; exact ⟨h1, h2, m1, m2, h5, h6⟩
+    | replace o ol m nl =>
+      simp only [List.cons_append, Walk, ih]
+      constructor
+      · rintro ⟨h1, h2, h3, h4, m1, m2, h5, h6⟩; exact ⟨m1, m2, ⟨h1, h2, h3, h4, h5⟩, h6⟩
+      · rintro ⟨m1, m2, ⟨h1, h2, h3, h4, h5⟩, h6⟩; exact ⟨h1, h2, h3, h4, m1, m2, h5, h6⟩
+
+theorem walk_cons (e : Nat → Nat → Bool) (x : Op) (l : List Op) (a b c d : Nat) :
+    Walk e a b (x :: l) c d ↔ ∃ m1 m2, Walk e a b [x] m1 m2 ∧ Walk e m1 m2 l c d :=
+  walk_append e [x] l a b c d
+
+theorem walk_mono (e : Nat → Nat → Bool) (l : List Op) (a b c d : Nat) (h : Walk e a b l c d) :
+    a ≤ c ∧ b ≤ d := by
+  induction l generalizing a b with
+  | nil => obtain ⟨rfl, rfl⟩ := h; exact ⟨Nat.le_refl _, Nat.le_refl _⟩
+  | cons x l ih =>
+    cases x with
+    | equal o m len => have := ih _ _ h.2.2.2.2; omega
+    | delete o len m => have := ih _ _ h.2.2; omega
+    | insert o m len => have := ih _ _ h.2.2; omega
+    | replace o ol m nl => have := ih _ _ h.2.2.2.2; omega
+
+/-- the filter of `group_walk`: drop empty ops -/
+abbrev nz : Op → Bool := fun x => !x.isEmpty
+
+theorem walk_filter_id (e : Nat → Nat → Bool) (l : List Op) (a b c d : Nat) (h : Walk e a b l c d) :
+    l.filter nz = l := by
+  induction l generalizing a b with
+  | nil => rfl
+  | cons x l ih =>
+    cases x with
+    | equal o m len =>
+      have h3 := h.2.2.1
+      rw [List.filter_cons_of_pos (by simp [Op.isEmpty, Op.oLen]; omega), ih _ _ h.2.2.2.2]
+    | delete o len m =>
+      have h3 := h.2.1
+      rw [List.filter_cons_of_pos (by simp [Op.isEmpty, Op.oLen]; omega), ih _ _ h.2.2]
+    | insert o m len =>
+      have h3 := h.2.1
+      rw [List.filter_cons_of_pos (by simp [Op.isEmpty, Op.oLen, Op.nLen]; omega), ih _ _ h.2.2]
+    | replace o ol m nl =>
+      have h3 := h.2.2.1
+      rw [List.filter_cons_of_pos (by simp [Op.isEmpty, Op.oLen]; omega), ih _ _ h.2.2.2.2]
+
+/-- a (possibly empty) piece of an Equal run is a walk once empty ops are dropped -/
+theorem walk_filter_equal (e : Nat → Nat → Bool) (c d k : Nat) (h : ∀ t, t < k → e (c + t) (d + t) = true) :
+    Walk e c d ([Op.equal c d k].filter nz) (c + k) (d + k) := by
+  by_cases hk : k = 0
+  · subst hk; simp [Op.isEmpty, Op.oLen, Op.nLen, Walk]
+  · rw [List.filter_cons_of_pos (by simp [Op.isEmpty, Op.oLen]; omega)]
+    exact ⟨rfl, rfl, by omega, h, rfl, rfl⟩
+
+theorem filter_snoc (p : List Op) (x : Op) : (p ++ [x]).filter nz = p.filter nz ++ [x].filter nz := by
+  simp
+
+theorem G_walk (e : Nat → Nat → Bool) (n o0 n0 o1 n1 : Nat) (ops p : List Op) (a b c d c' d' : Nat)
+    (hp : Walk e a b (p.filter nz) c d) (ho : Walk e c d (ops.filter nz) c' d')
+    (ha : o0 ≤ a) (hb : n0 ≤ b) (hc : c' ≤ o1) (hd : d' ≤ n1) :
+    ∀ g ∈ G n ops p, ∃ a b c d, Walk e a b (g.filter nz) c d ∧ o0 ≤ a ∧ c ≤ o1 ∧ n0 ≤ b ∧ d ≤ n1 := by
+  induction ops generalizing p a b c d with
+  | nil =>
+    intro g hg
+    rw [G_nil] at hg
+    obtain ⟨rfl, rfl⟩ := ho
+    split at hg
+    · simp at hg
+    · simp at hg
+    · simp at hg; subst hg
+      exact ⟨a, b, c, d, hp, ha, hc, hb, hd⟩
+  | cons x rest ih =>
+    by_cases hbig : isBig n x = true
+    · obtain ⟨o, m, len, rfl, hlen⟩ := isBig_true hbig
+      rw [G_big _ _ _ _ _ _ hlen]
+      rw [List.filter_cons_of_pos (by simp [Op.isEmpty, Op.oLen]; omega)] at ho
+      obtain ⟨rfl, rfl, hpos, heq, hrest⟩ := ho
+      have hm := walk_mono _ _ _ _ _ _ hrest
+      have hm2 := walk_mono _ _ _ _ _ _ hp
+      intro g hg
+      rcases List.mem_cons.1 hg with rfl | hg
+      · refine ⟨a, b, o + n, m + n, ?_, ha, by omega, hb, by omega⟩
+        rw [filter_snoc, walk_append]
+        exact ⟨o, m, hp, walk_filter_equal e o m n (fun t ht => heq t (by omega))⟩
+      · refine ih [_] (o + (len - n)) (m + (len - n)) (o + len) (m + len) ?_ hrest
+          (by omega) (by omega) g hg
+        have h1 : o + len = o + (len - n) + (len - (len - n)) := by omega
+        have h2 : m + len = m + (len - n) + (len - (len - n)) := by omega
+        rw [h1, h2]
+        apply walk_filter_equal
+        intro t ht
+        have := heq (len - n + t) (by omega)
+        rwa [← Nat.add_assoc, ← Nat.add_assoc] at this
+    · have hbig : isBig n x = false := by simpa using hbig
+      rw [G_small _ _ _ _ hbig]
+      by_cases hx : nz x = true
+      · rw [List.filter_cons_of_pos hx, walk_cons] at ho
+        obtain ⟨m1, m2, hx1, hrest⟩ := ho
+        refine ih (p ++ [x]) a b m1 m2 ?_ hrest ha hb
+        rw [filter_snoc, walk_append, List.filter_cons_of_pos hx]
+        exact ⟨c, d, hp, hx1⟩
+      · rw [List.filter_cons_of_neg hx] at ho
+        refine ih (p ++ [x]) a b c d ?_ ho ha hb
+        rw [filter_snoc, List.filter_cons_of_neg hx]
+        simpa using hp
+
+theorem trimFirst_walk (e : Nat → Nat → Bool) (n : Nat) (l : List Op) (o0 n0 o1 n1 : Nat)
+    (h : Walk e o0 n0 l o1 n1) :
+    ∃ a b, o0 ≤ a ∧ n0 ≤ b ∧ Walk e a b ((trimFirst n l).filter nz) o1 n1 := by
+  unfold trimFirst
+  split
+  · rename_i o m len rest
+    obtain ⟨rfl, rfl, hpos, heq, hrest⟩ := h
+    refine ⟨o + (len - n), m + (len - n), by omega, by omega, ?_⟩
+    rw [show ∀ x : Op, x :: rest = [x] ++ rest from fun _ => rfl, List.filter_append, walk_append,
+      walk_filter_id _ _ _ _ _ _ hrest]
+    refine ⟨o + len, m + len, ?_, hrest⟩
+    have h1 : o + len = o + (len - n) + (len - (len - n)) := by omega
+    have h2 : m + len = m + (len - n) + (len - (len - n)) := by omega
+    rw [h1, h2]
+    apply walk_filter_equal
+    intro t ht
+    have := heq (len - n + t) (by omega)
+    rwa [← Nat.add_assoc, ← Nat.add_assoc] at this
+  · exact ⟨o0, n0, Nat.le_refl _, Nat.le_refl _, by rwa [walk_filter_id _ _ _ _ _ _ h]⟩
+
+theorem trimLast_walk (e : Nat → Nat → Bool) (n : Nat) (l : List Op) (a b o1 n1 : Nat)
+    (h : Walk e a b (l.filter nz) o1 n1) :
+    ∃ c d, c ≤ o1 ∧ d ≤ n1 ∧ Walk e a b ((trimLast n l).filter nz) c d := by
+  fun_induction trimLast n l generalizing a b with
+  | case1 => exact ⟨o1, n1, Nat.le_refl _, Nat.le_refl _, h⟩
+  | case2 o m len =>
+    by_cases hl : len = 0
+    · subst hl; exact ⟨o1, n1, Nat.le_refl _, Nat.le_refl _, by simpa using h⟩
+    · rw [List.filter_cons_of_pos (by simp [Op.isEmpty, Op.oLen]; omega)] at h
+      obtain ⟨rfl, rfl, hpos, heq, rfl, rfl⟩ := h
+      exact ⟨o + (len - (len - n)), m + (len - (len - n)), by omega, by omega,
+        walk_filter_equal e o m _ (fun t ht => heq t (by omega))⟩
+  | case3 x hne => exact ⟨o1, n1, Nat.le_refl _, Nat.le_refl _, h⟩
+  | case4 x y rest ih =>
+    by_cases hx : nz x = true
+    · rw [List.filter_cons_of_pos hx, walk_cons] at h
+      obtain ⟨m1, m2, hx1, hrest⟩ := h
+      obtain ⟨c, d, hc, hd, hw⟩ := ih _ _ hrest
+      refine ⟨c, d, hc, hd, ?_⟩
+      rw [List.filter_cons_of_pos hx, walk_cons]
+      exact ⟨m1, m2, hx1, hw⟩
+    · rw [List.filter_cons_of_neg hx] at h
+      obtain ⟨c, d, hc, hd, hw⟩ := ih _ _ h
+      exact ⟨c, d, hc, hd, by rwa [List.filter_cons_of_neg hx]⟩
+
+/-! ### structure of the result: prefixes, groups in progress, trimming of `pre ++ c :: post` -/
+
+/-- processing a prefix closes some groups and leaves a pending group, independently of what follows;
+the closed groups and the pending one hold exactly the changes seen so far -/
+theorem G_prefix (n : Nat) (pre p : List Op) :
+    ∃ done p', (∀ rest, G n (pre ++ rest) p = done ++ G n rest p') ∧
+      changesOf (done.flatten ++ p') = changesOf p ++ changesOf pre := by
+  induction pre generalizing p with
+  | nil => exact ⟨[], p, fun _ => rfl, by simp [changesOf]⟩
+  | cons x pre ih =>
+    by_cases hb : isBig n x = true
+    · obtain ⟨o, m, len, rfl, hlen⟩ := isBig_true hb
+      obtain ⟨done, p', h, hch⟩ := ih [.equal (o + (len - n)) (m + (len - n)) (len - (len - n))]
+      refine ⟨(p ++ [.equal o m n]) :: done, p', fun rest => ?_, ?_⟩
+      · rw [List.cons_append, G_big _ _ _ _ _ _ hlen, h]; rfl
+      · rw [List.flatten_cons, List.append_assoc, changesOf_append, hch]
+        simp [changesOf_append, changesOf]
+    · have hb : isBig n x = false := by simpa using hb
+      obtain ⟨done, p', h, hch⟩ := ih (p ++ [x])
+      refine ⟨done, p', fun rest => by rw [List.cons_append, G_small _ _ _ _ hb, h], ?_⟩
+      rw [hch, changesOf_append, changesOf_cons x pre, List.append_assoc]
+
+/-- a pending group that already has a change is the beginning of the next group of the result -/
+theorem G_of_change (n : Nat) (ops p : List Op) (hp : changesOf p ≠ []) :
+    ∃ s t, G n ops p = (p ++ s) :: t := by
+  induction ops generalizing p with
+  | nil =>
+    refine ⟨[], [], ?_⟩
+    rw [G_nil]
+    split
+    · simp [changesOf] at hp
+    · simp [changesOf] at hp
+    · simp
+  | cons x rest ih =>
+    by_cases hb : isBig n x = true
+    · obtain ⟨o, m, len, rfl, hlen⟩ := isBig_true hb
+      exact ⟨_, _, G_big _ _ _ _ _ _ hlen⟩
+    · have hb : isBig n x = false := by simpa using hb
+      obtain ⟨s, t, h⟩ := ih (p ++ [x]) (by rw [changesOf_append]; simp [hp])
+      exact ⟨[x] ++ s, t, by rw [G_small _ _ _ _ hb, h, List.append_assoc]⟩
+
+theorem G_nil_of_change (n : Nat) (p : List Op) (hp : changesOf p ≠ []) : G n [] p = [p] := by
+  rw [G_nil]
+  split
+  · simp [changesOf] at hp
+  · simp [changesOf] at hp
+  · rfl
+
+theorem NAE_append_right {l r : List Op} (h : NAE (l ++ r)) : NAE r := by
+  induction l with
+  | nil => exact h
+  | cons x l ih => exact ih (NAE_tail h)
+
+theorem trimFirst_append_ne (n : Nat) (pre : List Op) (c : Op) (r : List Op) (hc : c.tag ≠ .equal) :
+    trimFirst n (pre ++ c :: r) = trimFirst n pre ++ c :: r := by
+  cases pre with
+  | nil => cases c <;> simp_all [trimFirst, Op.tag]
+  | cons x pre => cases x <;> simp [trimFirst]
+
+theorem trimLast_cons_ne (n : Nat) (c : Op) (r : List Op) (hc : c.tag ≠ .equal) :
+    trimLast n (c :: r) = c :: trimLast n r := by
+  cases r with
+  | nil => cases c <;> simp_all [trimLast, Op.tag]
+  | cons y r => simp [trimLast]
+
+theorem trimLast_append (n : Nat) (l r : List Op) (hr : r ≠ []) :
+    trimLast n (l ++ r) = l ++ trimLast n r := by
+  induction l with
+  | nil => rfl
+  | cons x l ih =>
+    cases hlr : l ++ r with
+    | nil => simp [hr] at hlr
+    | cons y t => rw [List.cons_append, hlr, trimLast, ← hlr, ih]; rfl
+
+/-- the trimmed input when the list is split around a change -/
+theorem trim_split (n : Nat) (pre : List Op) (c : Op) (post : List Op) (hc : c.tag ≠ .equal) :
+    trimLast n (trimFirst n (pre ++ c :: post)) = trimFirst n pre ++ c :: trimLast n post := by
+  rw [trimFirst_append_ne n pre c post hc, trimLast_append _ _ _ (by simp), trimLast_cons_ne n c post hc]
+
+/-! ### C12, clause "each group is a contiguous run of ops" -/
+
+theorem Piece.refl (x : Op) : Piece x x := Or.inl rfl
+
+/-- pending group vs. the run of the input it came from: only the first op may be trimmed -/
+def RelH (P p : List Op) : Prop := ∃ X x t, P = X :: t ∧ p = x :: t ∧ Piece X x
+
+/-- remaining ops vs. the remaining input: only the last op may be trimmed -/
+def RelT (O ops : List Op) : Prop :=
+  (O = [] ∧ ops = []) ∨ ∃ t Z z, O = t ++ [Z] ∧ ops = t ++ [z] ∧ Piece Z z
+
+theorem relH_snoc {P p : List Op} {Z z : Op} (h : RelH P p) (hz : Piece Z z) :
+    Trimmed (P ++ [Z]) (p ++ [z]) := by
+  obtain ⟨X, x, t, rfl, rfl, hx⟩ := h
+  exact Or.inr ⟨X, x, t, Z, z, rfl, rfl, hx, hz⟩
+
+theorem relH_snoc_same {P p : List Op} (x : Op) (h : RelH P p) : RelH (P ++ [x]) (p ++ [x]) := by
+  obtain ⟨X, x0, t, rfl, rfl, hx⟩ := h
+  exact ⟨X, x0, t ++ [x], rfl, rfl, hx⟩
+
+theorem relH_trimmed {P p : List Op} (h : RelH P p) : Trimmed P p := by
+  obtain ⟨X, x, t, rfl, rfl, hx⟩ := h
+  rcases eq_nil_or_snoc t with rfl | ⟨t', w, rfl⟩
+  · exact Or.inl ⟨X, x, rfl, rfl, hx⟩
+  · exact Or.inr ⟨X, x, t', w, w, rfl, rfl, hx, Piece.refl w⟩
+
+theorem relT_cons {O ops : List Op} {x : Op} (h : RelT O (x :: ops)) :
+    (ops = [] ∧ ∃ Z, O = [Z] ∧ Piece Z x) ∨ (ops ≠ [] ∧ ∃ O', O = x :: O' ∧ RelT O' ops) := by
+  rcases h with ⟨_, h⟩ | ⟨t, Z, z, rfl, h, hz⟩
+  · simp at h
+  · cases t with
+    | nil =>
+      simp at h; obtain ⟨rfl, rfl⟩ := h
+      exact Or.inl ⟨rfl, Z, rfl, hz⟩
+    | cons y t =>
+      simp at h; obtain ⟨rfl, rfl⟩ := h
+      exact Or.inr ⟨by simp, t ++ [Z], rfl, Or.inr ⟨t, Z, z, rfl, rfl, hz⟩⟩
+
+theorem G_contig (n : Nat) (S : List Op) (ops p A P O : List Op) (hS : S = A ++ P ++ O)
+    (hP : RelH P p) (hO : RelT O ops) (hlast : ∀ z, ops.getLast? = some z → isBig n z = false) :
+    ∀ g ∈ G n ops p, ∃ pre mid post, S = pre ++ mid ++ post ∧ Trimmed mid g := by
+  induction ops generalizing p A P O with
+  | nil =>
+    intro g hg
+    rw [G_nil] at hg
+    have hg : g = p := by split at hg <;> simp_all
+    subst hg
+    exact ⟨A, P, O, hS, relH_trimmed hP⟩
+  | cons x rest ih =>
+    rcases relT_cons hO with ⟨rfl, Z, rfl, hZ⟩ | ⟨hne, O', rfl, hO'⟩
+    · have hb : isBig n x = false := hlast x rfl
+      rw [G_small _ _ _ _ hb]
+      intro g hg
+      rw [G_nil] at hg
+      have hg : g = p ++ [x] := by split at hg <;> simp_all
+      subst hg
+      exact ⟨A, P ++ [Z], [], by simp [hS], relH_snoc hP hZ⟩
+    · have hlast' : ∀ z, rest.getLast? = some z → isBig n z = false := by
+        intro z hz; apply hlast z
+        rwa [List.getLast?_cons_of_ne_nil hne]
+      by_cases hb : isBig n x = true
+      · obtain ⟨o, m, len, rfl, hlen⟩ := isBig_true hb
+        rw [G_big _ _ _ _ _ _ hlen]
+        intro g hg
+        rcases List.mem_cons.1 hg with rfl | hg
+        · refine ⟨A, P ++ [.equal o m len], O', by simp [hS], relH_snoc hP ?_⟩
+          exact Or.inr ⟨o, m, len, 0, n, rfl, rfl, by omega⟩
+        · refine ih _ (A ++ P) [.equal o m len] O' (by simp [hS]) ?_ hO' hlast' g hg
+          exact ⟨_, _, [], rfl, rfl, Or.inr ⟨o, m, len, len - n, len - (len - n), rfl, rfl, by omega⟩⟩
+      · have hb : isBig n x = false := by simpa using hb
+        rw [G_small _ _ _ _ hb]
+        exact ih _ A (P ++ [x]) O' (by simp [hS]) (relH_snoc_same x hP) hO' hlast'
+
+theorem trimLast_single_piece (n : Nat) (Z : Op) : ∃ z, trimLast n [Z] = [z] ∧ Piece Z z := by
+  cases Z with
+  | equal o m len =>
+    exact ⟨_, rfl, Or.inr ⟨o, m, len, 0, len - (len - n), rfl, rfl, by omega⟩⟩
+  | _ => exact ⟨_, rfl, Piece.refl _⟩
+
+theorem trimLast_relT (n : Nat) (l : List Op) : RelT l (trimLast n l) := by
+  rcases eq_nil_or_snoc l with rfl | ⟨t, Z, rfl⟩
+  · exact Or.inl ⟨rfl, rfl⟩
+  · obtain ⟨z, hz, hp⟩ := trimLast_single_piece n Z
+    exact Or.inr ⟨t, Z, z, rfl, by rw [trimLast_append _ _ _ (by simp), hz], hp⟩
+
+theorem trimFirst_single_piece (n : Nat) (X : Op) : ∃ x, trimFirst n [X] = [x] ∧ Piece X x := by
+  cases X with
+  | equal o m len =>
+    exact ⟨_, rfl, Or.inr ⟨o, m, len, len - n, len - (len - n), rfl, rfl, by omega⟩⟩
+  | _ => exact ⟨_, rfl, Piece.refl _⟩
+
+theorem Piece.trans {x y z : Op} (h1 : Piece x y) (h2 : Piece y z) : Piece x z := by
+  rcases h1 with rfl | ⟨o, m, len, d, k, rfl, rfl, h⟩
+  · exact h2
+  · rcases h2 with rfl | ⟨o', m', len', d', k', h3, rfl, h'⟩
+    · exact Or.inr ⟨o, m, len, d, k, rfl, rfl, h⟩
+    · simp at h3; obtain ⟨rfl, rfl, rfl⟩ := h3
+      exact Or.inr ⟨o, m, len, d + d', k', rfl, by simp [Nat.add_assoc], by omega⟩
+
+end Group
+
+open Group
+
 /-- every change is kept exactly once, unchanged and in order -/
 theorem group_keeps_changes (ops : List Op) (n : Nat) :
     changesOf (groupDiffOps ops n).flatten = changesOf ops := by
-  sorry
+  rw [groupDiffOps_eq, G_changes, changesOf_trimLast, changesOf_trimFirst]; rfl
 
-/-- no group consists of Equal ops only; no changes means no groups -/
-theorem group_has_change (ops : List Op) (n : Nat) (g : List Op) (hg : g ∈ groupDiffOps ops n) :
-    changesOf g ≠ [] := by
-  sorry
+/-- no group consists of Equal ops only -/
+theorem group_has_change (ops : List Op) (n : Nat) (hv : AltOps ops) (g : List Op)
+    (hg : g ∈ groupDiffOps ops n) : changesOf g ≠ [] := by
+  rw [groupDiffOps_eq] at hg
+  refine G_has_change n _ [] (NAE_trim (NAE_of_AltOps hv)) (Or.inr (Or.inl ⟨rfl, ?_⟩)) g hg
+  intro x hx
+  exact isBig_false_of_small (trim_head_small n ops x hx)
 
-theorem group_no_changes (ops : List Op) (n : Nat) (h : changesOf ops = []) : groupDiffOps ops n = [] := by
-  sorry
+/-- no changes means no groups -/
+theorem group_no_changes (ops : List Op) (n : Nat) (hv : AltOps ops) (h : changesOf ops = []) :
+    groupDiffOps ops n = [] := by
+  rcases NAE_no_changes (NAE_of_AltOps hv) h with rfl | ⟨o, m, len, rfl⟩
+  · rfl
+  · have hb : isBig n (.equal (o + (len - n)) (m + (len - n)) (len - (len - n) - (len - (len - n) - n))) = false := by
+      simp [isBig]; omega
+    rw [groupDiffOps_eq]
+    simp only [trimFirst, trimLast]
+    rw [G_small _ _ _ _ hb, G_nil]
+    rfl
 
 /-- every Equal op inside a group has at most `2n` items, and the first and last op of a group, when
 Equal, have at most `n` items -/
-theorem group_equal_bounds (ops : List Op) (n : Nat) (hv : AltOps ops) (g : List Op) (hg : g ∈ groupDiffOps ops n) :
+theorem group_equal_bounds' (ops : List Op) (n : Nat) (g : List Op) (hg : g ∈ groupDiffOps ops n) :
     (∀ x ∈ g, x.tag = .equal → x.oLen ≤ 2 * n) ∧
     (∀ x, g.head? = some x → x.tag = .equal → x.oLen ≤ n) ∧
     (∀ x, g.getLast? = some x → x.tag = .equal → x.oLen ≤ n) := by
-  sorry
+  rw [groupDiffOps_eq] at hg
+  refine G_bounds n _ [] (by simp) ?_ ?_ g hg
+  · intro x hx; exact trim_head_small n ops x (by simpa using hx)
+  · intro x hx; exact trimLast_last_small n _ x (by simpa using hx)
+
+/-- the statement as given in the skeleton (the hypothesis `AltOps ops` is not needed) -/
+theorem group_equal_bounds (ops : List Op) (n : Nat) (hv : AltOps ops) (g : List Op)
+    (hg : g ∈ groupDiffOps ops n) :
+    (∀ x ∈ g, x.tag = .equal → x.oLen ≤ 2 * n) ∧
+    (∀ x, g.head? = some x → x.tag = .equal → x.oLen ≤ n) ∧
+    (∀ x, g.getLast? = some x → x.tag = .equal → x.oLen ≤ n) := by
+  have _ := hv
+  exact group_equal_bounds' ops n g hg
 
 /-- grouping only trims Equal ops: walking the flattened groups' ops consumes, for every group, a
 contiguous stretch of both sequences — each group is a valid walk between its own end points -/
 theorem group_walk (e : Nat → Nat → Bool) (ops : List Op) (n : Nat) (o0 n0 o1 n1 : Nat)
     (hw : Walk e o0 n0 ops o1 n1) (g : List Op) (hg : g ∈ groupDiffOps ops n) :
     ∃ a b c d, Walk e a b (g.filter fun x => !x.isEmpty) c d ∧ o0 ≤ a ∧ c ≤ o1 ∧ n0 ≤ b ∧ d ≤ n1 := by
-  sorry
+  rw [groupDiffOps_eq] at hg
+  obtain ⟨a, b, ha, hb, h1⟩ := trimFirst_walk e n ops o0 n0 o1 n1 hw
+  obtain ⟨c, d, hc, hd, h2⟩ := trimLast_walk e n _ a b o1 n1 h1
+  exact G_walk e n o0 n0 o1 n1 _ [] a b a b c d ⟨rfl, rfl⟩ h2 ha hb hc hd g hg
+
+/-! ### C12: separation of changes -/
+
+/-- **Separation.** Two changes `c1`, `c2` separated by one Equal op of `len` items:
+* `len ≤ 2n`: some group contains `c1`, the whole Equal op and `c2` consecutively;
+* `2n < len`: `c1` is the last change of one group, which ends with `n` items of context, and `c2` is the
+  first change of the next group, which starts with `n` items of context.
+`G1` and `s1` hold exactly the changes of `pre`, so the statement is about these occurrences. -/
+theorem group_separation (ops : List Op) (n : Nat) (pre post : List Op) (c1 c2 : Op) (o m len : Nat)
+    (hops : ops = pre ++ [c1, .equal o m len, c2] ++ post)
+    (h1 : c1.tag ≠ .equal) (h2 : c2.tag ≠ .equal) :
+    (len ≤ 2 * n → ∃ G1 s1 s2 G2,
+      groupDiffOps ops n = G1 ++ [s1 ++ [c1, .equal o m len, c2] ++ s2] ++ G2 ∧
+      changesOf (G1.flatten ++ s1) = changesOf pre) ∧
+    (2 * n < len → ∃ G1 s1 s2 G2,
+      groupDiffOps ops n =
+        G1 ++ [s1 ++ [c1, .equal o m n], [.equal (o + (len - n)) (m + (len - n)) n, c2] ++ s2] ++ G2 ∧
+      changesOf (G1.flatten ++ s1) = changesOf pre) := by
+  subst hops
+  have hL : trimLast n (trimFirst n (pre ++ [c1, .equal o m len, c2] ++ post)) =
+      trimFirst n pre ++ (c1 :: .equal o m len :: c2 :: trimLast n post) := by
+    have := trim_split n (pre ++ [c1, .equal o m len]) c2 post h2
+    simp only [List.append_assoc, List.cons_append, List.nil_append] at this ⊢
+    rw [this, trimFirst_append_ne n pre c1 _ h1]
+    simp
+  obtain ⟨done, p', hG, hch⟩ := G_prefix n (trimFirst n pre) []
+  rw [changesOf_trimFirst] at hch
+  rw [groupDiffOps_eq, hL, hG, G_small _ _ _ _ (isBig_false_of_ne h1)]
+  constructor
+  · intro hlen
+    have hb : isBig n (.equal o m len) = false := by simp [isBig]; omega
+    rw [G_small _ _ _ _ hb, G_small _ _ _ _ (isBig_false_of_ne h2)]
+    obtain ⟨s, t, h⟩ := G_of_change n (trimLast n post) (p' ++ [c1] ++ [.equal o m len] ++ [c2])
+      (by rw [changesOf_append, changesOf_single_ne h2]; simp)
+    refine ⟨done, p', s, t, ?_, by simpa [changesOf] using hch⟩
+    rw [h]; simp
+  · intro hlen
+    rw [G_big _ _ _ _ _ _ (by omega), G_small _ _ _ _ (isBig_false_of_ne h2)]
+    obtain ⟨s, t, h⟩ := G_of_change n (trimLast n post)
+      ([.equal (o + (len - n)) (m + (len - n)) (len - (len - n))] ++ [c2])
+      (by rw [changesOf_append, changesOf_single_ne h2]; simp)
+    refine ⟨done, p', s, t, ?_, by simpa [changesOf] using hch⟩
+    rw [h, show len - (len - n) = n by omega]; simp
+
+/-- two adjacent changes (no Equal item between them) are adjacent in one group -/
+theorem group_adjacent_changes (ops : List Op) (n : Nat) (pre post : List Op) (c1 c2 : Op)
+    (hops : ops = pre ++ [c1, c2] ++ post) (h1 : c1.tag ≠ .equal) (h2 : c2.tag ≠ .equal) :
+    ∃ G1 s1 s2 G2, groupDiffOps ops n = G1 ++ [s1 ++ [c1, c2] ++ s2] ++ G2 ∧
+      changesOf (G1.flatten ++ s1) = changesOf pre := by
+  subst hops
+  have hL : trimLast n (trimFirst n (pre ++ [c1, c2] ++ post)) =
+      trimFirst n pre ++ (c1 :: c2 :: trimLast n post) := by
+    have := trim_split n (pre ++ [c1]) c2 post h2
+    simp only [List.append_assoc, List.cons_append, List.nil_append] at this ⊢
+    rw [this, trimFirst_append_ne n pre c1 _ h1]
+    simp
+  obtain ⟨done, p', hG, hch⟩ := G_prefix n (trimFirst n pre) []
+  rw [changesOf_trimFirst] at hch
+  rw [groupDiffOps_eq, hL, hG, G_small _ _ _ _ (isBig_false_of_ne h1),
+    G_small _ _ _ _ (isBig_false_of_ne h2)]
+  obtain ⟨s, t, h⟩ := G_of_change n (trimLast n post) (p' ++ [c1] ++ [c2])
+    (by rw [changesOf_append, changesOf_single_ne h2]; simp)
+  refine ⟨done, p', s, t, ?_, by simpa [changesOf] using hch⟩
+  rw [h]; simp
+
+/-! ### C12: context at the borders of the first and the last group -/
+
+/-- **Leading context.** If the input starts with an Equal op followed by a change, the first group starts
+with the last `min n len` items of that Equal op, followed by the change. -/
+theorem group_leading_context (n o m len : Nat) (c : Op) (rest : List Op) (hc : c.tag ≠ .equal) :
+    ∃ s gs, groupDiffOps (.equal o m len :: c :: rest) n =
+      (.equal (o + (len - min n len)) (m + (len - min n len)) (min n len) :: c :: s) :: gs := by
+  have hL : trimLast n (trimFirst n (.equal o m len :: c :: rest)) =
+      .equal (o + (len - n)) (m + (len - n)) (len - (len - n)) :: c :: trimLast n rest := by
+    have := trim_split n [.equal o m len] c rest hc
+    simpa [trimFirst] using this
+  have hb : isBig n (.equal (o + (len - n)) (m + (len - n)) (len - (len - n))) = false := by
+    simp [isBig]; omega
+  rw [groupDiffOps_eq, hL, G_small _ _ _ _ hb, G_small _ _ _ _ (isBig_false_of_ne hc)]
+  obtain ⟨s, t, h⟩ := G_of_change n (trimLast n rest)
+    ([] ++ [.equal (o + (len - n)) (m + (len - n)) (len - (len - n))] ++ [c])
+    (by rw [changesOf_append, changesOf_single_ne hc]; simp)
+  refine ⟨s, t, ?_⟩
+  rw [h, show len - min n len = len - n by omega, show len - (len - n) = min n len by omega]; simp
+
+/-- **Trailing context.** If the input ends with a change followed by an Equal op, the last group ends with
+that change followed by the first `min n len` items of the Equal op. -/
+theorem group_trailing_context (n o m len : Nat) (c : Op) (pre : List Op) (hc : c.tag ≠ .equal) :
+    ∃ gs s, groupDiffOps (pre ++ [c, .equal o m len]) n =
+      gs ++ [s ++ [c, .equal o m (min n len)]] := by
+  have hL : trimLast n (trimFirst n (pre ++ [c, .equal o m len])) =
+      trimFirst n pre ++ (c :: [.equal o m (len - (len - n))]) := by
+    have := trim_split n pre c [.equal o m len] hc
+    simpa [trimLast] using this
+  have hb : isBig n (.equal o m (len - (len - n))) = false := by
+    simp [isBig]; omega
+  obtain ⟨done, p', hG, _⟩ := G_prefix n (trimFirst n pre) []
+  rw [groupDiffOps_eq, hL, hG, G_small _ _ _ _ (isBig_false_of_ne hc), G_small _ _ _ _ hb]
+  refine ⟨done, p', ?_⟩
+  rw [G_nil_of_change _ _ (by rw [changesOf_append, changesOf_append, changesOf_single_ne hc]; simp),
+    show len - (len - n) = min n len by omega]
+  simp
+
+/-- no leading context when the input starts with a change -/
+theorem group_leading_change (n : Nat) (c : Op) (rest : List Op) (hc : c.tag ≠ .equal) :
+    ∃ s gs, groupDiffOps (c :: rest) n = (c :: s) :: gs := by
+  have hL : trimLast n (trimFirst n (c :: rest)) = c :: trimLast n rest := by
+    simpa [trimFirst] using trim_split n [] c rest hc
+  rw [groupDiffOps_eq, hL, G_small _ _ _ _ (isBig_false_of_ne hc)]
+  obtain ⟨s, t, h⟩ := G_of_change n (trimLast n rest) ([] ++ [c])
+    (by rw [changesOf_append, changesOf_single_ne hc]; simp)
+  exact ⟨s, t, by rw [h]; simp⟩
+
+/-- no trailing context when the input ends with a change -/
+theorem group_trailing_change (n : Nat) (c : Op) (pre : List Op) (hc : c.tag ≠ .equal) :
+    ∃ gs s, groupDiffOps (pre ++ [c]) n = gs ++ [s ++ [c]] := by
+  have hL : trimLast n (trimFirst n (pre ++ [c])) = trimFirst n pre ++ [c] := by
+    simpa [trimLast] using trim_split n pre c [] hc
+  obtain ⟨done, p', hG, _⟩ := G_prefix n (trimFirst n pre) []
+  rw [groupDiffOps_eq, hL, hG, G_small _ _ _ _ (isBig_false_of_ne hc)]
+  exact ⟨done, p', by
+    rw [G_nil_of_change _ _ (by rw [changesOf_append, changesOf_single_ne hc]; simp)]⟩
+
+/-- leading context, for an alternating list given as a whole -/
+theorem group_leading_context_alt (ops : List Op) (n o m len : Nat) (rest : List Op) (hv : AltOps ops)
+    (hops : ops = .equal o m len :: rest) (hr : rest ≠ []) :
+    ∃ s gs, groupDiffOps ops n =
+      (.equal (o + (len - min n len)) (m + (len - min n len)) (min n len) :: s) :: gs := by
+  subst hops
+  cases rest with
+  | nil => exact absurd rfl hr
+  | cons c rest =>
+    have hc : c.tag ≠ .equal := fun h => hv.2.1 ⟨rfl, h⟩
+    obtain ⟨s, gs, h⟩ := group_leading_context n o m len c rest hc
+    exact ⟨c :: s, gs, h⟩
+
+/-- trailing context, for an alternating list given as a whole -/
+theorem group_trailing_context_alt (ops : List Op) (n o m len : Nat) (pre : List Op) (hv : AltOps ops)
+    (hops : ops = pre ++ [.equal o m len]) (hp : pre ≠ []) :
+    ∃ gs s, groupDiffOps ops n = gs ++ [s ++ [.equal o m (min n len)]] := by
+  subst hops
+  rcases eq_nil_or_snoc pre with h | ⟨pre', c, rfl⟩
+  · exact absurd h hp
+  · have hn : NAE ([c] ++ [.equal o m len]) :=
+      NAE_append_right (l := pre') (by simpa using NAE_of_AltOps hv)
+    have hc : c.tag ≠ .equal := fun h => hn.1 ⟨h, rfl⟩
+    obtain ⟨gs, s, h⟩ := group_trailing_context n o m len c pre' hc
+    refine ⟨gs, s ++ [c], ?_⟩
+    simpa using h
+
+/-- **Contiguity.** Every group is a contiguous run `mid` of the input ops, in which only the first and the
+last op may have been trimmed (to a sub-range of the Equal op they were); all interior ops, in particular
+interior Equal runs, are kept whole. -/
+theorem group_contiguous (ops : List Op) (n : Nat) (g : List Op) (hg : g ∈ groupDiffOps ops n) :
+    ∃ pre mid post, ops = pre ++ mid ++ post ∧ Trimmed mid g := by
+  rw [groupDiffOps_eq] at hg
+  match ops, hg with
+  | [], hg => simp [trimFirst, trimLast, G_nil] at hg
+  | [X], hg =>
+    obtain ⟨x, hx, hX⟩ := trimFirst_single_piece n X
+    rw [hx] at hg
+    obtain ⟨t, Z, z, h1, h2, hz⟩ : ∃ t Z z, [x] = t ++ [Z] ∧ trimLast n [x] = t ++ [z] ∧ Piece Z z := by
+      rcases trimLast_relT n [x] with ⟨h, _⟩ | h
+      · simp at h
+      · exact h
+    cases t with
+    | cons a t => simp at h1
+    | nil =>
+      simp at h1 h2; subst h1
+      rw [h2] at hg
+      have hb : isBig n z = false := by
+        apply isBig_false_of_small
+        exact trimLast_last_small n [x] z (by rw [h2]; rfl)
+      rw [G_small _ _ _ _ hb, G_nil] at hg
+      have hg : g = [z] := by split at hg <;> simp_all
+      subst hg
+      exact ⟨[], [X], [], rfl, Or.inl ⟨X, z, rfl, rfl, Piece.trans hX hz⟩⟩
+  | X :: Y :: rest, hg =>
+    obtain ⟨x, hx, hX⟩ := trimFirst_single_piece n X
+    have hL : trimLast n (trimFirst n (X :: Y :: rest)) = x :: trimLast n (Y :: rest) := by
+      have : trimFirst n (X :: Y :: rest) = x :: Y :: rest := by
+        cases X <;> simp_all [trimFirst]
+      rw [this, trimLast]
+    have hb : isBig n x = false := by
+      apply isBig_false_of_small
+      exact trim_head_small n (X :: Y :: rest) x (by rw [hL]; rfl)
+    rw [hL, G_small _ _ _ _ hb] at hg
+    refine G_contig n _ _ _ [] [X] (Y :: rest) rfl ⟨X, x, [], rfl, rfl, hX⟩ (trimLast_relT n _) ?_ g hg
+    intro z hz
+    exact isBig_false_of_small (trimLast_last_small n _ z hz)
 
 end SimilarVerif
